@@ -43,6 +43,10 @@ def run_digest(prop, i, tier='quick', seed=0):
     if prop in ('C07', 'C19'):
         from . import c07, c07run
         plan = c07run.plan_for(prop, rs, i)
+        if plan['cfg'].get('feedback'):
+            st, plan = run_isolated(c07.materialise_feedback, plan, 600)
+            if st != 'ok':
+                return [st, st]
         st, r = run_isolated(c07.execute, plan, 600)
         if st != 'ok':
             return [st, st]
